@@ -35,3 +35,14 @@ def evens(n):
     for i in range(n):
         if i % 2 == 0:
             yield i
+
+
+def pick(x, *, flip=False):
+    if flip:
+        return -x
+    return x
+
+
+def use_pick_flipped(x):
+    # a call that passes a keyword the first contract case of pick() does not list must not be given that case
+    return pick(x, flip=True)
